@@ -17,6 +17,14 @@ inductive Family
   | tipTiltMirror      -- TipTiltMirror
   | microLensArray     -- MicroLensArray = SurfaceApodizer(mla_opd, n = 2)
   | atmosphericLayer   -- AtmosphericLayer: exp(i phase_for(λ)), phase_for(λ) = phase_for(1)/λ
+  -- round 4: identified on their own (parameter = the element's own sag / phase formula)
+  | thinLens           -- ThinLens: sag −r²/(2 f (n₀−1)), exp(i (n−1) (2π/λ) sag)
+  | tiltElement        -- TiltElement: sag y'·tan(angle)
+  | thinPrism          -- ThinPrism
+  | prism              -- Prism: its prism_sag
+  | phaseGrating       -- PhaseGrating: exp(i·amplitude·sin(2π y'/period))
+  | unimodularApodizer -- Apodizer(exp(iφ)): forward exp(iφ), backward conj
+  | multiLayerAtmosphere -- MultiLayerAtmosphere(scintillation=False): exp(i Σ phase_for(1)/λ)
 deriving DecidableEq, Repr
 
 inductive Dir
@@ -34,6 +42,13 @@ def coefFwd (f : Family) (n : Rat) : Rat :=
   | .tipTiltMirror => 2
   | .microLensArray => 2 - 1
   | .atmosphericLayer => 1
+  | .thinLens => n - 1
+  | .tiltElement => n - 1
+  | .thinPrism => n - 1
+  | .prism => n - 1
+  | .phaseGrating => 1
+  | .unimodularApodizer => 1
+  | .multiLayerAtmosphere => 1
 
 /-- κ of either direction: backward is the conjugate multiplier. -/
 def coef (f : Family) (d : Dir) (n : Rat) : Rat :=
@@ -49,6 +64,13 @@ def parseFamily? : String → Option Family
   | "tipTiltMirror" => some .tipTiltMirror
   | "microLensArray" => some .microLensArray
   | "atmosphericLayer" => some .atmosphericLayer
+  | "thinLens" => some .thinLens
+  | "tiltElement" => some .tiltElement
+  | "thinPrism" => some .thinPrism
+  | "prism" => some .prism
+  | "phaseGrating" => some .phaseGrating
+  | "unimodularApodizer" => some .unimodularApodizer
+  | "multiLayerAtmosphere" => some .multiLayerAtmosphere
   | _ => none
 
 /-! ### Magnifier -/
